@@ -229,6 +229,7 @@ def await_ready_block(body, fut_local, max_hops=12):
     return None
 
 
+CLOSURE_DEFS = False   # when set, closure / coroutine aggregates carry their DefPath: ('agg', (kind, def), captures)
 CONST_WITH_GA = False     # when True, unevaluated associated consts keep their generic arguments (T::Size::USIZE of which T?)
 
 
@@ -313,7 +314,10 @@ def _expr_place(body, p, depth, max_depth):
     elif k == "un":
         e = ("un", d["op"], expr_of(body, d["a"], depth + 1, max_depth))
     elif k == "agg":
-        e = ("agg", (d.get("adt"), d.get("vn")) if d["ak"] == "adt" else d["ak"], tuple(expr_of(body, o, depth + 1, max_depth) for o in d["ops"]))
+        tag = (d.get("adt"), d.get("vn")) if d["ak"] == "adt" else d["ak"]
+        if CLOSURE_DEFS and d["ak"] in ("closure", "coroutine", "coroutine_closure") and d.get("def"):
+            tag = (d["ak"], d["def"])
+        e = ("agg", tag, tuple(expr_of(body, o, depth + 1, max_depth) for o in d["ops"]))
     elif k == "disc":
         e = ("disc", _expr_place(body, d["p"], depth + 1, max_depth))
     else:
